@@ -40,6 +40,12 @@ CHECKS = {
         note="3 input values (one within the tolerance of another) + defaults, 3 alphabets rotated by VERIF_SEED; canonical state = cache entries + local data + Jacobian keys + differentiated I/O + the caller's reused arrays + run counters; large topology-optimization disciplines are limited to depth 1/2.",
         technique="explicit-state BFS over operation histories of real disciplines and caches, ground-truth / uncached-twin oracle in every state",
     ),
+    "C07": dict(
+        engine="E2-product", category="exploration",
+        text="Full product over 6 coupled systems (fully coupled, weakly coupled downstream / upstream, self-coupled, state equation solved inside a discipline or left to the MDA; unequal sizes, names sorting differently from production order) x mode {auto, direct, adjoint} x matrix type {sparse, sparse + LU, linear operator} x the 8 linear solvers accepting a non-symmetric system x every non-empty subset of inputs x every non-empty subset of outputs (couplings / states among them) x 2 points x 5 MDA kinds x Jacobian representation (dense, csr, operator) x partial or full fill, plus every ordered pair of requests on the SAME MDA object (discipline API and assembly API); oracle: dF/dx - dF/dy (dR/dy)^-1 dR/dx assembled densely by the harness and self-checked against a monolithic solve, with a tolerance derived from the solver tolerance and the conditioning.",
+        note="3 value alphabets by VERIF_SEED (kappa <= 3); conjugate gradients excluded (needs SPD); the quick tier runs the full solver product for one MDA kind and crosses the other axes at the default solver; loud Lanczos-type solver breakdowns and the documented compute_all_jacobians weak-coupling error are accepted and counted.",
+        technique="full product of structural axes and two-request histories, dense closed-form implicit-function oracle",
+    ),
     "C08": dict(
         engine="E2-product", category="exploration",
         text="Exhaustive: every labelled digraph on n <= 3 nodes with self-loops and on 4 nodes (without self-loops quick, with thorough) x naming (distinct/duplicated) x I/O and edge-realisation variants is turned into disciplines; the execution sequence and the coupling sets are compared with an independent Warshall SCC/topology oracle; for n <= 3 MDAChain / MDOChain on affine contractive disciplines, in every listing order and with one setting deviation at a time, must equal the monolithic linear solve; initialization-chain ordering against an independent fixed point.",
@@ -93,6 +99,12 @@ CHECKS = {
         text="Full product of all 19 DistributionFactory classes (SciPy and OpenTURNS versions, generic wrappers, truncated / transformed / Dirac, joint distributions of every ordered pair and a Gaussian copula) x parameter alphabets x probabilities {0.01..0.99}; every (family, parameters) wrapped by both libraries compared directly; parameter spaces: all 8 arrival orders of <= 2 random and <= 1 deterministic variables x variable alphabets x 3 construction paths (transform identities, deterministic variables on the affine design-space map including gradients); statistics estimators through their deterministic consequences; closed-form reference laws with derived tolerances.",
         note="Numeric properties are checked on a finite value alphabet (3 affine images by seed); statistical statements only through deterministic consequences (no hypothesis test: sampling is another family); accuracy of the interfaced libraries on singular densities is out of scope.",
         technique="full product of classes x parameter alphabets x modifiers x parameter-space shapes, closed-form oracle",
+    ),
+    "C20": dict(
+        engine="E1-bfs", category="model_checking",
+        text="Every word of length <= 3 (thorough <= 4) over {execute(v1), execute(v2), linearize(v1), pickle round-trip, to_pickle/from_pickle} on 57 of the 62 classes of the discipline and MDA factories (constructor recipes in the module; the 5 classes needing Excel, a job scheduler or an executable are listed as not built) x grammar type x cache type, on 27 MDOFunction trees, design / parameter spaces, optimization problems at 4 life stages and 7 MDO/DOE scenarios; after a round-trip the history continues on both the original and the restored twin: same grammars, defaults, settings, outputs, Jacobians, optimization results and counters, an aliasing walk over the two object graphs (reported allow-list), mutation isolation, file-backed caches stay attached to their file.",
+        note="Value alphabet = 3 scaled / shifted default inputs per seed; reduced word sets for HDF5 and non-default grammar / cache pairs in the quick tier (bounds in the evidence); iterative processes may be compared within their tolerance (in practice bitwise).",
+        technique="exhaustive enumeration of life-cycle histories on the real classes with restored twins, differential oracle + object-graph aliasing walk",
     ),
     "C12": dict(
         engine="E4-crash", category="fault_enumeration",
